@@ -261,6 +261,22 @@ def struct_jobs(prop, tier, seed, names=None, budget=None, max_active=None, limi
     return jobs
 
 
+def pending_cfg_jobs(tier):
+    """nothing is ready only because of the configuration: deadline not reached at the configured offset, other target set, other tag names"""
+    import datetime
+    jobs = []
+    doc = [H(1, 'ws'), "A\n", H(2, 'ind'), O('t', "to='2024-01-01 00:00:00'"), "\nq\n", C('t'), "\n", H(2, 'ws'), O('m', "name='x'"), "r", C('m'), H(1, 'ws'), "B\n"]
+    t0 = 1704067200  # 2024-01-01T00:00:00Z
+    cases = [('-09:00', t0 + 5 * 3600), ('-09:00', t0 + 9 * 3600 - 1), ('-0330', t0 + 3 * 3600), ('+00:00', t0 - 1), ('+09:00', t0 - 9 * 3600 - 1), ('+14:00', t0 - 14 * 3600 - 1),
+             ('-12:00', t0 + 12 * 3600 - 1), ('bogus', t0 + 10 ** 8)]
+    for off, now in cases:
+        for tg in ([], ['X'], ['xx']):
+            for sizes in ([1, 2, 2, 1], [0, 0, 2, 0]) if tier != 'quick' else ([1, 2, 0, 1],):
+                jobs.append(dict(harness='pipe_clean', label=f'pending by configuration offset={off} now-to={now - t0:+d}s targets={tg} holes={sizes}',
+                                 params=dict(tpl=instantiate(doc, sizes), prop='C04', cfg=dict(tl_offset=list(off.encode()), now=now, targets=[list(x.encode()) for x in tg]))))
+    return jobs
+
+
 def junk_jobs(prop, tier, seed):
     rnd = random.Random(seed * 1000003 + 11)
     jobs = []
